@@ -9,6 +9,7 @@ import shutil
 from . import CHECK_VERSION, core
 from .driver import HarnessError, ZygoteSet, simroot
 
+SELFTEST_OFFSET = 400  # first run index behind the directed plan (see directed_plan)
 PROP = "C16"
 FOREIGN_FILES = True
 PROFILE = "z_c16"
